@@ -8,6 +8,31 @@ def hook_commits():
     return [l.split()[0] for l in out.splitlines() if l.split(" ", 1)[1].startswith("verif hook")][::-1]
 
 CHECKS = {
+ "C01": dict(
+  category="model_checking", design_ref="DESIGN.md 4/C01",
+  technique="deviation-bounded stateless DFS over blocking-pool schedules of the real compress_cmd/create_archive/clone_cmd (gate in a vendored tokio) + exhaustive small-alphabet input x configuration sweep",
+  text="Schedules: every order in which blocking-pool tasks (hashing, compression, tokio::fs::File operations) complete relative to polls of the main future, up to 2 (quick) / 3-4 (thorough) deviations from the default schedule, plus the complete tree for a 2-chunk input (thorough), on the real CLI compress, library writer and CLI clone; each schedule is one execution of the real code and is judged by the round trip and the recorded size/checksum. Inputs x configurations: all strings over a 3-letter alphabet up to length 5/7 plus a boundary family around window/min/max and 1 MiB-buffer-independent larger sources, over a pairwise-style grid of chunkers, hash lengths, compressions and buffer counts, through the library writer and the real CLI compress+clone on files.",
+  note="A3: schedule granularity = blocking task runs to completion / main future polled once (sound: tasks share nothing but join handles, <=1 op in flight per file handle); reduction R1 validated against the unreduced search; real-binary leg binds the in-process legs to the shipped artefact. HTTP read path is covered by C07/C08/C17."),
+ "C11": dict(
+  category="model_checking", design_ref="DESIGN.md 4/C11",
+  technique="independent decoder + conformance checklist applied to every archive of the input sweep and of every explored compress schedule",
+  text="Every archive produced in the C01 sweep and under every explored schedule of both writers is decoded by a codec written from header.rs' table and chunk_dictionary.proto only (no prost, no bitar) and checked against the full checklist: magic, LE sizes, dictionary decodes without unknown fields, chunk data offset == header length, header checksum, file ends at the end of the last chunk, descriptors unique/back-to-back/first-occurrence order, stored <= source size, every chunk decodes and hashes to its checksum, rebuild order valid and reproducing the source, recorded parameters/compression/metadata == requested, boundaries == reference chunking; bitar::Archive accessors compared with the decoder's values.",
+  note="Trusted: the independent codec (cross-validated bit-for-bit against bitar on 48 archives and the golden files) and the reference chunker."),
+ "C12": dict(
+  category="model_checking", design_ref="DESIGN.md 4/C12",
+  technique="deviation-bounded schedule exploration of the real writers; byte comparison of the archive from every explored schedule, buffer count and input fragmentation",
+  text="For each (writer, source, options) the archive bytes observed after runtime shutdown are collected over every explored blocking-pool schedule (bound 2 quick / 3-4 + complete 2-chunk tree thorough), over buffered-chunks 1/2/3/8/64 and over input read sizes {whole,1,3,7 with Pending}; the oracle is exactly one distinct byte string per group.",
+  note="Same trusted base as C01's schedule legs (A3, R1). Worker-count variation of the real multi-thread runtime is subsumed by the schedule exploration (the gate owns every completion order)."),
+ "C14": dict(
+  category="exploration", design_ref="DESIGN.md 4/C14", engine="py",
+  technique="exhaustive finite grid of (command, output state, flags, archive kind) cells on the real binary; before/after content hashes",
+  text="The full grid {clone local, clone HTTP, compress} x {output absent, empty, shorter, longer, identical, other content, block device large/too small} x {none, -f, --seed-output, both} x {valid, bad magic, flipped header byte, truncated header, wrong/right --verify-header} is executed on the real bita binary (real loop devices); for every refusal cell: exit != 0, content hash and length unchanged, no file created on header/archive refusals, compress temp file not created; non-refusal cells must succeed with the right content (guards against vacuity).",
+  note="A5: observation of the real binary at the file-system boundary; conditions outside the grid unseen. Loop devices with fallback to hook H1."),
+ "C16": dict(
+  category="exploration", design_ref="DESIGN.md 4/C16", engine="py",
+  technique="exhaustive finite grid of clone/compress modes on the real binary observed with strace at the file-opening system calls + directory snapshots",
+  text="Every clone mode (plain, -f, 1-2 seed files, stdin seed, in-place, seed+in-place) x {local, HTTP} x {none, --verify-output, --verify-header} x {relative, absolute paths} and 12-24 compress configurations run under strace -f; every open with a write/create/truncate flag, every unlink/rename/mkdir/link/truncate is attributed to a path: clone may only write-open the output, removes/renames nothing; compress may only touch the archive and its temp file, removes exactly the temp file; directory snapshots before/after must differ by the output only.",
+  note="A5; trusted: strace's syscall decoding and the fd-table reconstruction (a fork, exec, chdir or unparsable line is a machinery error)."),
  "C02": dict(
   category="exploration", design_ref="DESIGN.md 4/C02",
   technique="exhaustive enumeration of seed sets over chunk-word alphabets on the real clone flow; reference clone model",
@@ -71,7 +96,9 @@ def main():
             "add_only": True,
         },
         "engines": [
-            {"name": "vh", "path": "/verif/harness", "serves_properties": sorted(CHECKS),
+            {"name": "py", "path": "/verif/lib", "serves_properties": sorted(p for p in CHECKS if CHECKS[p].get("engine") == "py"),
+             "kind_free_text": "Python legs driving the real bita binary (built with hooks on) over finite mode grids, observed with strace, a scripted HTTP range server and before/after file-system snapshots"},
+            {"name": "vh", "path": "/verif/harness", "serves_properties": sorted(p for p in CHECKS if CHECKS[p].get("engine", "vh") == "vh"),
              "kind_free_text": "Rust harness linking the real bitar crate and the real CLI modules; hand-rolled stateless DFS / explicit-state BFS explorers, scripted in-memory devices, vendored tokio with a blocking-pool gate for schedule exploration"},
         ],
         "checks": checks,
